@@ -277,6 +277,45 @@ def r3(ctx, retsets):
               "outcomes %s" % sorted({(o["counts"].get("cleared", 0), str(flow.av_single(o["ret"])), o["counts"].get("lk")) for o in fail}), key="C18.R3:validate_r")
 
 
+def r3_array_and_length(ctx, retsets):
+    """set semantics on every exit, failure exits included: a function that moves or writes elements inside a node's live
+    element array also writes the node's length on that path (an early return between a compaction and its length update
+    - for instance when the shrinking realloc fails - leaves duplicates behind the new end or hides live records)"""
+    pdb = ctx.pdb
+
+    def live_elem(fn, ref):
+        e = vf.expr(fn, ref)
+        return vf.mentions(e, lambda x: isinstance(x, tuple) and len(x) == 2 and x[0] == "load" and vf.last_field(x[1]) == "node_data.ary")
+    n = 0
+    for fn in pdb.all_functions():
+        sites = []
+        for i in fn.all_insts():
+            if i.op == "call" and (i.callee or "").startswith(("llvm.memcpy", "llvm.memmove", "memcpy", "memmove")) and live_elem(fn, i.args[0]):
+                sites.append(i)
+            elif i.op == "store" and live_elem(fn, i["ptr"]):
+                sites.append(i)
+        if not sites:
+            continue
+        ctx.touch(fn)
+        n += 1
+        ids = {id(x) for x in sites}
+
+        def cl(inst, E, st, ids=ids):
+            if id(inst) in ids:
+                return ["=ew:%d" % inst.line]
+            if inst.op == "store" and vf.store_field(inst) == "node_data.len":
+                return ["=lw:1"]
+            return None
+        outs, fl = es.count_effects(fn, pdb, cl, retsets, cap=64)
+        bad = [o for o in outs if o["counts"].get("ew") and not o["counts"].get("lw")]
+        ctx.check(not bad, "C18.R3", "%s:elements-and-length-change-together" % fn.name, sites[0].loc(),
+                  "every path that writes into the node's element array also writes its length" if not bad else
+                  "a path returns %s after the element write at line %s without updating the length (lines %s)" % (
+                      flow.av_single(bad[0]["ret"]), bad[0]["counts"].get("ew"), flow.trace_lines(fn, bad[0]["trace"])[-8:]),
+                  key="C18.R3:array-length:%s" % fn.name)
+    ctx.floor("C18.R3", n, 2)
+
+
 def r4(ctx, retsets):
     pdb = ctx.pdb
     ctx.rule("C18.R4", "release coverage: del_elem frees the element array when the last element goes; the node-removing paths free the "
@@ -395,6 +434,7 @@ def check(ctx):
     r1(ctx)
     r2(ctx, retsets)
     r3(ctx, retsets)
+    r3_array_and_length(ctx, retsets)
     r4(ctx, retsets)
     r5(ctx, retsets)
     from specs import C02, C03, C04, C10
@@ -452,4 +492,8 @@ WITNESSES = [
      "old": "\tvoid *p = lrtr_malloc(bytes);\n\n\tif (!p)\n\t\treturn p;\n\n\treturn memset(p, 0, bytes);", "new": "\treturn calloc(1, bytes);"},
     {"id": "C18.w15-undo-F20-add_group-reports-success", "rule": "C18.R2", "file": "rtrlib/rtr_mgr.c",
      "old": "\tif (!new_group_node) {\n\t\terr_code = RTR_ERROR;\n\t\tgoto err;\n\t}", "new": "\tif (!new_group_node)\n\t\tgoto err;"},
+    {"id": "C18.w-compaction-without-length-on-failure", "rule": "C18.R3", "edits": [
+        (TP, "\tdata->len--;\n\tif (!data->len) {\n\t\tlrtr_free(data->ary);", "\tif (data->len == 1) {\n\t\tdata->len = 0;\n\t\tlrtr_free(data->ary);"),
+        (TP, "\ttmp = lrtr_realloc(data->ary, sizeof(struct data_elem) * data->len);\n\tif (!tmp) {\n\t\tdata->ary[data->len] = deleted_elem;\n\t\tdata->len++;\n\t\treturn PFX_ERROR;\n\t}\n\n\tdata->ary = tmp;",
+         "\ttmp = lrtr_realloc(data->ary, sizeof(struct data_elem) * (data->len - 1));\n\tif (!tmp)\n\t\treturn PFX_ERROR;\n\n\tdata->len--;\n\tdata->ary = tmp;")]},
 ]
